@@ -1,11 +1,7 @@
 """Running scripts on the real engine from inside a harness."""
-from .compat import NoTracing, BoundReached
+from .compat import NoTracing, BoundReached, StepBudget  # noqa: F401
 
 _CACHE = {}
-
-
-class StepBudget(BaseException):
-    """The harness's VM step bound was reached (M-steps)."""
 
 
 def compile_js(src):
